@@ -45,9 +45,11 @@ ASSUMPTIONS = [
 ]
 EXHAUSTIVE = {"quick": False, "thorough": False}
 FLOORS = {"quick": {"connect-configurations": 2800, "tls-handshakes": 600,
-                    "history-calls": 150, "callables": 10, "random-histories": 1200},
+                    "history-calls": 150, "callables": 10, "random-histories": 1200,
+                    "refused-logins-in-every-reply-shape": 300},
           "thorough": {"connect-configurations": 2800, "tls-handshakes": 600,
-                       "history-calls": 150, "callables": 10, "random-histories": 450000}}
+                       "history-calls": 150, "callables": 10, "random-histories": 450000,
+                       "refused-logins-in-every-reply-shape": 300}}
 SHARD_TIMEOUT = {"quick": 600, "thorough": 3000}
 
 LOGIN, PW = "alice-login", "s3cr3t-passw0rd"
@@ -90,6 +92,7 @@ def plan(tier, seed):
     n = len(connect_cases())
     shards = [{"w": "connect", "range": [s, e]} for s, e in split(n, 15)]
     shards.append({"w": "histories"})
+    shards.append({"w": "reply-shapes"})
     nr = 1500 if tier == "quick" else 500000
     for i, (s, e) in enumerate(split(nr, 8 if tier == "quick" else 48)):
         shards.append({"w": "random-histories", "n": e - s, "rs": seed * 1000003 + i})
@@ -394,7 +397,50 @@ def run_random_histories(shard, res: Result):
             res.sample({"workload": "random-histories", "trace": trace[:6]}, 1)
 
 
+def run_reply_shapes(res: Result):
+    """Every reply of a refused login worded and coded as a server may: each response code of
+    R-MS's look-alike list (string parameters with escaped quotes, parentheses, backslashes) x
+    each look-alike text (sent as a literal; some start with OK, some hold an OK line) x
+    AUTHENTICATE answered NO / BYE x with and without STARTTLS. Afterwards a script command
+    is attempted: nothing but the handshake may have been written."""
+    users = {LOGIN.encode(): PW.encode()}
+    for code in [None] + list(ms.Server.LOOKALIKE_CODES):
+        for text in ms.Server.LOOKALIKE_TEXTS:
+            for verdict in ("NO", "BYE"):
+                for starttls in (False, True):
+                    srv = ms.Server(users=users, sasl=["PLAIN", "LOGIN"], starttls=True,
+                                    faults={"auth-verdict": verdict}, encodings="quoted",
+                                    scripts={b"s": b"keep;\r\n"})
+                    srv.lookalike_texts = True
+                    srv.rng = random.Random(1)
+                    srv.forced_code, srv.forced_text = code, text
+                    sess = mslab.Session(srv)
+                    out = sess.call("connect", LOGIN, PW, starttls=starttls)
+                    out2 = sess.call("listscripts")
+                    res.count("refused-logins-in-every-reply-shape")
+                    res.case(repr(("reply-shape", code, text, verdict, starttls)))
+                    problems = []
+                    if out == ("ret", True):
+                        problems.append("connect-returned-True-after-refused-login")
+                    if sess.client.authenticated:
+                        problems.append("authenticated-flag-after-refused-login")
+                    if any("before successful AUTHENTICATE" in v for v in srv.violations):
+                        problems.append("script-command-before-authentication")
+                    if out[0] == "hang" or out2[0] == "hang":
+                        problems.append("hang")
+                    res.monitor("reply-shapes", bool(problems))
+                    for pr in problems[:1]:
+                        res.violation({"rule": pr, "history": "refused-login-reply-shapes",
+                                       "verdict": verdict},
+                                      {"response_code": code, "text": text, "starttls": starttls,
+                                       "connect": repr(out)[:200], "listscripts": repr(out2)[:200],
+                                       "wire": [[e[1], e[2], e[3][:80]] for e in sess.wire.events][:30]})
+
+
 def run_shard(tier, shard, res: Result):
+    if shard["w"] == "reply-shapes":
+        run_reply_shapes(res)
+        return
     if shard["w"] == "histories":
         run_histories(res)
         return
